@@ -49,19 +49,53 @@ def iter_type(c):
     return None
 
 
+def _split_args(inner):
+    """Top-level comma separated generic arguments."""
+    out, depth, cur = [], 0, ""
+    prev = ""
+    for ch in inner:
+        if ch in "<([":
+            depth += 1
+        elif ch in ")]" or (ch == ">" and prev != "-"):
+            depth -= 1
+        if ch == "," and depth == 0:
+            out.append(cur.strip())
+            cur = ""
+        else:
+            cur += ch
+        prev = ch
+    if cur.strip():
+        out.append(cur.strip())
+    return out
+
+
+FINITE_LEAVES = (r"std::iter::Once<", r"std::iter::Empty<", r"std::iter::OnceWith<")
+BOTH = ("Chain",)
+EITHER = ("Zip",)
+
+
 def finite_iterator(ty):
+    """Decided on the structure of the iterator's type: a finite base, or an adapter over finite parts
+    (`Chain` needs both sides, `Zip` either one)."""
     if ty is None:
         return False
     if any(x in ty for x in INFINITE):
         return False
-    t = ty.replace("&mut ", "").replace("&", "")
-    # strip adapters from the outside
-    for _ in range(12):
-        m = re.match(ADAPTERS, t)
-        if not m:
-            break
-        t = t[m.end():]
-    return any(re.match(bx, t) for bx in FINITE_BASES)
+    t = ty.replace("&mut ", "").replace("&", "").strip()
+    if any(re.match(bx, t) for bx in FINITE_BASES) or any(re.match(bx, t) for bx in FINITE_LEAVES):
+        return True
+    m = re.match(ADAPTERS, t)
+    if not m or not t.endswith(">"):
+        return False
+    args = _split_args(t[m.end():-1])
+    if not args:
+        return False
+    name = m.group(1)
+    if name in BOTH:
+        return len(args) >= 2 and finite_iterator(args[0]) and finite_iterator(args[1])
+    if name in EITHER:
+        return len(args) >= 2 and (finite_iterator(args[0]) or finite_iterator(args[1]))
+    return finite_iterator(args[0])
 
 
 FINITE_SOURCES = (r"std::vec::Vec<", r"\[[^;\]]+; \d+\]", r"&?\[[^;\]]+\]", r"std::collections::\w+::\w+<",
@@ -69,7 +103,7 @@ FINITE_SOURCES = (r"std::vec::Vec<", r"\[[^;\]]+; \d+\]", r"&?\[[^;\]]+\]", r"st
                   r"std::ops::Range<", r"std::ops::RangeInclusive<")
 
 
-def _generic_param_finite(lib, fn_name, ty):
+def _generic_param_finite(lib, fn_name, ty, exact=False):
     """`<T as IntoIterator>::IntoIter` (the iterator of a generic parameter of fn_name): every call of fn_name in the
     crate instantiates its type parameters only with finite collections / finite iterators (or with types that are
     not iterable at all, like the reader), so the loop over the parameter ends."""
@@ -84,18 +118,19 @@ def _generic_param_finite(lib, fn_name, ty):
             break
         t = t[m.end():]
     m = re.match(r"<(\w+) as std::iter::IntoIterator>::IntoIter($|[,>])", t)
-    if not m:
+    if not m and not t.startswith("impl std::iter::Iterator<") and not t.startswith("impl Iterator<") \
+            and not re.match(r"^[A-Z]\w{0,2}$", t):
         return False
     bodies = getattr(lib, "raw_bodies", None) or lib.bodies
-    roots = {fn_name} | set(lib.roots_of(fn_name) if hasattr(lib, "roots_of") else ())
+    roots = {fn_name} if exact else ({fn_name} | set(lib.roots_of(fn_name) if hasattr(lib, "roots_of") else ()))
     calls = [c for b in bodies.values() for c in b.calls if (c.name or "") in roots]
     if not calls:
         return False
     for c in calls:
         for g in c.gargs or []:
             g = g.strip()
-            if re.match(r"^[A-Z]\w{0,2}$", g):
-                continue        # a type parameter of the caller handed on (the reader's R)
+            if re.match(r"^[A-Z]\w{0,2}$", g) or g.startswith("'"):
+                continue        # a type parameter of the caller handed on (the reader's R), or a lifetime
             if finite_iterator(g) or any(re.match(x, g.replace("&", "").strip()) for x in FINITE_SOURCES):
                 continue
             return False
@@ -382,6 +417,12 @@ def progress(rep, ctx):
                 fin = [t for t in tys if finite_iterator(t)]
                 if not fin:
                     fin = [t for t in tys if _generic_param_finite(lib, name, t)]
+                if not fin:
+                    # the loop was written in a helper that is new to the rules and was inlined here: its iterator
+                    # parameter is judged at the helper's call sites
+                    origin = b.raw["blocks"][h].get("inlined_from")
+                    if origin:
+                        fin = [t for t in tys if _generic_param_finite(lib, origin, t, exact=True)]
                 if fin:
                     r.ok(key, "driven by %s" % fin[0][:90], where, nontrivial=False)
                 elif name in LOOP_TABLE:
